@@ -437,6 +437,14 @@ fn peers_args_case(cx: &mut Cx, dir: &Path) {
             return;
         }
     };
+    // "`PeersArgs::bootstrap_cache_dir` will take precedence over the path provided inside `config`"
+    if store.config().cache_file_path.parent() != Some(custom.as_path()) {
+        cx.violation(
+            "bootstrap-cache-dir-not-honoured",
+            format!("a store built with --bootstrap-cache-dir {custom:?} and a configuration naming {other:?} uses the cache file {:?}", store.config().cache_file_path),
+            json!({}),
+        );
+    }
     let pid = PeerId::random();
     let addr: Multiaddr = format!("/ip4/10.1.2.3/udp/{}/quic-v1/p2p/{pid}", cx.rng.gen_range(1000..60000)).parse().expect("multiaddr");
     store.add_addr(addr.clone());
